@@ -210,7 +210,11 @@ func managerScenario(c mgrConfig) func() func() []string {
 			if !runReturned {
 				problems = append(problems, "run-not-returned: BlockManager.Run did not return")
 			}
-			_ = returnedAt
+			if runReturned && !interruptAt.IsZero() && returnedAt.Sub(interruptAt) >= 2*time.Minute {
+				// shutdown cancels every download and every stream of this harness ends: waiting for a
+				// download's own fallback timers means a signal was lost or a download was not told to stop
+				problems = append(problems, fmt.Sprintf("shutdown-stalled: BlockManager.Run returned %s after the interrupt", returnedAt.Sub(interruptAt).Round(time.Second)))
+			}
 			if !interruptAt.IsZero() {
 				// shutdown cancels every download: a node that was asked before the interrupt and never
 				// answers must be told to cancel when the manager stops, not only when its download's
